@@ -6,7 +6,9 @@ _ENV = dict(ASAN_ENV)
 _ENV["ASAN_OPTIONS"] = ASAN_ENV["ASAN_OPTIONS"] + ":symbolize=0"
 
 _OPT_SRC = ["harness/C09_optional.cpp", "harness/C09_opt_int.cpp", "harness/C09_opt_string.cpp",
-            "harness/C09_opt_tracked.cpp", "harness/C09_opt_doubleoff.cpp", "harness/C09_opt_trackedoff.cpp"]
+            "harness/C09_opt_tracked.cpp", "harness/C09_opt_doubleoff.cpp", "harness/C09_opt_trackedoff.cpp",
+            "harness/C09_opt_a32.cpp", "harness/C09_opt_a64.cpp", "harness/C09_opt_a32off.cpp",
+            "harness/C09_opt_a64off.cpp", "harness/C09_opt_a32arr.cpp", "harness/C09_opt_a64arr.cpp"]
 
 _PRUNE = ("Declared reductions, all exhaustive over the stated alphabet: (1) constructions target the lowest "
           "absent slot (slots are interchangeable fresh heap blocks); (2) observer operations occur only as the "
@@ -20,8 +22,13 @@ UNITS_LOCAL = {"C09": [
          budget={"quick": 100, "thorough": 1000},
          rule="every history of <= 4 (thorough 5) operations over 3 Optional<T> slots, replayed on fresh heap objects "
               "in forked shards, for T = int, std::string (short and heap-long values), Tracked (live-address "
-              "registry), and double / Tracked inside struct{char; Optional<T>} (depth 2 only while "
-              "alignof(Optional<T>) < alignof(T), which is reported statically). Mutators: default/value/copy/move/"
+              "registry), double / Tracked inside struct{char; Optional<T>}, and the over-aligned Tracked-like payloads "
+              "alignas(32) / alignas(64) in three layouts: alone in a heap block, inside struct{char; Optional<T>}, and as "
+              "the middle element of Optional<T> a[3] (11 configurations; a configuration whose "
+              "alignof(Optional<T>) < alignof(T) - reported statically - is explored to depth 2 only). Every holder is "
+              "placement-constructed at the least aligned address its own alignof permits (odd multiple of alignof), "
+              "so UBSan's alignment check sees every payload placement-new and &*o of every engaged payload must be a "
+              "multiple of alignof(T). Mutators: default/value/copy/move/"
               "converting-copy/converting-move construction, destroy, assign value (lvalue and rvalue), copy-/move-"
               "assign from every slot incl. itself, converting copy/move assign from Optional<U> empty and engaged "
               "(short->int, const char*->string, float->double, int->Tracked), emplace, reset, assignment through "
